@@ -85,10 +85,18 @@ fn main() {
 
     let known = load_known(&root);
     let t0 = Instant::now();
+    let mut inconclusive: Vec<String> = Vec::new();
+    // the reference model is trusted only after it reproduces published perft counts in this very run
+    if !["C15", "C20"].contains(&prop.id) {
+        let limit = if tier == Tier::Quick { 120_000 } else { 5_000_000 };
+        match props::ref_selfcheck(limit) {
+            Ok(nodes) => eprintln!("[{} {}] reference model reproduced published perft counts ({} nodes)", prop.id, config, nodes),
+            Err(e) => inconclusive.push(format!("reference model self-check failed: {}", e)),
+        }
+    }
     let is_checked = config == "checked";
     let mut subs: Vec<Value> = Vec::new();
     let mut violations = 0u64;
-    let mut inconclusive: Vec<String> = Vec::new();
     let mut known_lines: Vec<String> = Vec::new();
     for sc in &prop.subchecks {
         if let Some(o) = &only {
